@@ -18,6 +18,11 @@ from pysparkling.utils import portable_hash  # noqa: E402
 def dec(j):
     if isinstance(j, dict) and 'f' in j:
         return float(j['f'])
+    if isinstance(j, dict) and 'dec' in j:
+        import decimal
+        return decimal.Decimal(j['dec'])
+    if isinstance(j, dict) and 'b' in j:
+        return j['b'].encode('latin-1')
     if isinstance(j, dict):
         return tuple(dec(x) for x in j['t'])
     if isinstance(j, list):
@@ -28,6 +33,10 @@ def dec(j):
 def enc(v):
     if isinstance(v, float):
         return {'f': repr(v)}
+    if isinstance(v, bytes):
+        return {'b': v.decode('latin-1')}
+    if type(v).__name__ == 'Decimal':
+        return {'dec': str(v)}
     if isinstance(v, tuple):
         return {'t': [enc(x) for x in v]}
     if isinstance(v, list):
